@@ -66,6 +66,7 @@ pub fn generate(rng: &mut Rng, tier: Tier, stats: &mut GenStats) -> Scenario {
             layers: vec![],
             taps: g.rng.chance(1, 4),
             erased: false,
+            form: g.rng.below(8) as u8,
         });
     }
     let schedule = interleaving(g.rng, nw, tree.len());
